@@ -29,10 +29,21 @@ def _valid_utf8(bs):
         return False
 
 
+def _flags(expected_text):
+    """Run.expected = (units a, units b, export a, export b, s_agrees_noexp, i_agrees) -> the two trailing booleans"""
+    import re
+    m = re.search(r"(true|false)\s*,\s*(true|false)\s*\)\s*\]?\s*$", expected_text.strip())
+    if not m:
+        return None, None
+    return m.group(1) == "true", m.group(2) == "true"
+
+
 def _i_reproduces(expected_text):
-    # Run.expected = (units a, units b, export a, export b, i_agrees)
-    t = expected_text.strip().rstrip(")]").strip()
-    return t.endswith("true")
+    return _flags(expected_text)[1] is True
+
+
+def _only_export_differs(expected_text):
+    return _flags(expected_text)[0] is True
 
 
 def _has_invalid_go_leaf(case):
@@ -58,16 +69,8 @@ def _op_over_surrogates(case, kinds):
 
 
 def pred_f19(case, record, exp):
-    """invalid UTF-8 in a Go string that became an importedString: raw-byte ===/SameValue/Export, raw-byte concat"""
-    return _has_invalid_go_leaf(case) and _i_reproduces(exp)
-
-
-def pred_trim(case, record, exp):
-    return _op_over_surrogates(case, ("trim", "trimStart", "trimEnd")) and _i_reproduces(exp)
-
-
-def pred_case(case, record, exp):
-    return _op_over_surrogates(case, ("upper", "lower")) and _i_reproduces(exp)
+    """an importedString with invalid UTF-8 exports its raw bytes: the ONLY disagreement with S is in Export() bytes"""
+    return _has_invalid_go_leaf(case) and _i_reproduces(exp) and _only_export_differs(exp)
 
 
 def pred_jsonrt(case, record, exp):
@@ -75,9 +78,7 @@ def pred_jsonrt(case, record, exp):
 
 
 PREDICATES = {
-    "C06.imported_invalid_utf8": pred_f19,
-    "C06.trim_lone_surrogate": pred_trim,
-    "C06.case_lone_surrogate": pred_case,
+    "C06.imported_invalid_utf8_export": pred_f19,
     "C06.jsonparse_lone_surrogate": pred_jsonrt,
 }
 
@@ -119,6 +120,7 @@ def candidates(case):
 
 def correspondence_c06(ctx):
     cfg = ctx.cfg
+    cfg["preclassify"] = False      # classification is done here, in bulk, with the model's verdicts
     binp = vcheck.build_harness(ctx)
     if not binp or not getattr(ctx, "model_ok", True):
         return
@@ -140,13 +142,18 @@ def correspondence_c06(ctx):
             ctx.log("coq eval error (I, %s): %s" % (source, e[-800:]))
             ctx.eval_errors = True
         not_i = set(bad[j] for j in bad_i)
+        bad_x, errs, _ = vcheck.coq_eval(ctx, sub, run_module="Verif.C06.RunX", tag=tag + "x")
+        for e in errs:
+            ctx.log("coq eval error (X, %s): %s" % (source, e[-800:]))
+            ctx.eval_errors = True
+        not_x = set(bad[j] for j in bad_x)      # disagree with S in more than the Export() bytes
         fresh, by_finding = [], {}
         for i in bad:
             hit = None
             if i not in not_i:
                 for k in known:
                     fn = PREDICATES.get(k["predicate"])
-                    if fn and fn(recs[i]["case"], recs[i], "true"):
+                    if fn and fn(recs[i]["case"], recs[i], "%s, true)]" % ("false" if i in not_x else "true")):
                         hit = k["id"]
                         break
             if hit is None:
@@ -206,7 +213,7 @@ CFG = {
     "id": "C06",
     "harness": "c06",
     "prop_file": "Properties/C06.v",
-    "run_modules": ["Verif.C06.Run", "Verif.C06.RunI"],
+    "run_modules": ["Verif.C06.Run", "Verif.C06.RunI", "Verif.C06.RunX"],
     "coq_dirs": ["C06"],
     "n": {"quick": int(os.environ.get("C06_N", "4000")), "thorough": 300000},
     "shard": 500,
